@@ -270,5 +270,279 @@ theorem ttPut_loc (s : Eng M) (k : H) : Loc o s (ttPut o s k) (ttPut o.never s k
     simp only [ht', Bool.not_false, if_true]
     exact Loc.ok s _ (Nat.le_refl _) (Nat.le_refl _)
 
+theorem setEntry_counters (s : Eng M) (i : Nat) (e : TEntry M) :
+    (s.setEntry i e).loads = s.loads ∧ (s.setEntry i e).evals = s.evals := ⟨rfl, rfl⟩
+
+theorem pvStore_loc (k : H) (depth b : Int) (a : PvAcc M) (s : Eng M) :
+    Loc o s (pvStore o k depth b a s) (pvStore o.never k depth b a s) := by
+  unfold pvStore
+  refine Loc.bind (ttPut_loc s k) ?_
+  intro slot? s1 _ _
+  dsimp only
+  cases slot? with
+  | none => exact Loc.ok s1 _ (Nat.le_refl _) (Nat.le_refl _)
+  | some slot =>
+    dsimp only
+    split
+    · split
+      · exact Loc.ok s1 _ (by simp only [setEntry_counters]; split <;> exact Nat.le_refl _)
+          (by simp only [setEntry_counters]; split <;> exact Nat.le_refl _)
+      · exact Loc.ok s1 _ (Nat.le_refl _) (Nat.le_refl _)
+    · exact Loc.error s1 _ _
+
+theorem zwStore_loc (k : H) (depth a0 : Int) (a : ZwAcc M) (s : Eng M) :
+    Loc o s (zwStore o k depth a0 a s) (zwStore o.never k depth a0 a s) := by
+  unfold zwStore
+  refine Loc.bind (ttPut_loc s k) ?_
+  intro slot? s1 _ _
+  dsimp only
+  cases slot? with
+  | none => exact Loc.ok s1 _ (Nat.le_refl _) (Nat.le_refl _)
+  | some slot =>
+    dsimp only
+    split
+    · exact Loc.ok s1 _ (by simp only [setEntry_counters]; split <;> exact Nat.le_refl _)
+        (by simp only [setEntry_counters]; split <;> exact Nat.le_refl _)
+    · exact Loc.error s1 _ _
+
+theorem afterChild_loc {σ : Type} (a : σ) (s : Eng M) :
+    Loc o s (Pure.pure (afterChild (M := M) o a s) : Except Err (Ctl σ (Res M) × Eng M))
+      (Pure.pure (afterChild o.never a s)) := by
+  unfold afterChild
+  rw [load_never]
+  obtain ⟨hl, he, hf⟩ := load_loc (o := o) s
+  intro r s' h
+  cases hc : (load o s).1 with
+  | true =>
+    have : load o s = (true, (load o s).2) := by rw [← hc]
+    rw [this] at h
+    cases h
+    exact ⟨by omega, by omega, fun hfu => by rw [hf hfu] at hc; cases hc⟩
+  | false =>
+    have : load o s = (false, (load o s).2) := by rw [← hc]
+    rw [this] at h
+    cases h
+    exact ⟨by omega, by omega, fun _ => rfl⟩
+
+theorem Loc.ite {s : Eng M} (c : Prop) [Decidable c] {x y x' y' : Except Err (α × Eng M)}
+    (ht : c → Loc o s x x') (hf : ¬c → Loc o s y y') :
+    Loc o s (if c then x else y) (if c then x' else y') := by
+  by_cases h : c
+  · simp only [h, if_true]; exact ht h
+  · simp only [h, if_false]; exact hf h
+
+theorem recordCut_counters [DecidableEq M] (s : Eng M) (m : M) (mv ply : Nat) :
+    Sat (recordCut s m mv ply) (fun s' => s'.loads = s.loads ∧ s'.evals = s.evals) := by
+  unfold recordCut
+  dsimp only
+  split
+  · split
+    · exact Sat.error
+    · exact Sat.ok ⟨rfl, rfl⟩
+  · exact Sat.ok ⟨rfl, rfl⟩
+
+theorem pvChild_loc {cpv cpv' : PvFn P M} {czw czw' : ZwFn P M} (hp : LocPv o cpv cpv') (hz : LocZw o czw czw')
+    (i : Nat) (child : P) (ply : Nat) (depth : Int) (tail : List M) (a b : Int) (s : Eng M) :
+    Loc o s (pvChild cpv czw i child ply depth tail a b s) (pvChild cpv' czw' i child ply depth tail a b s) := by
+  unfold pvChild
+  split
+  · refine Loc.bind (hz child (ply + 1) (depth - 1) tail (-a - 1) true s) ?_
+    rintro ⟨ms, v⟩ s1 _ _
+    dsimp only
+    split
+    · exact (hp child (ply + 1) (depth - 1) tail (-b) (-a) _).start rfl rfl
+    · exact Loc.pure s1 _ s1 (Nat.le_refl _) (Nat.le_refl _)
+  · exact hp child (ply + 1) (depth - 1) tail (-b) (-a) s
+
+theorem pvBody_loc [DecidableEq M] (g : Game P M) {cpv cpv' : PvFn P M} {czw czw' : ZwFn P M}
+    (hp : LocPv o cpv cpv') (hz : LocZw o czw czw') (ply : Nat) (depth b : Int) (dedup : Bool) :
+    LocBody o (pvBody g o cpv czw ply depth b dedup) (pvBody g o.never cpv' czw' ply depth b dedup) := by
+  intro m c a s
+  unfold pvBody
+  refine Loc.ite _ (fun _ => Loc.pure s _ s (Nat.le_refl _) (Nat.le_refl _)) (fun _ => ?_)
+  refine Loc.bind_same _ ?_
+  intro sm _
+  refine Loc.bind ((pvChild_loc hp hz _ c ply depth _ _ b _).start rfl rfl) ?_
+  rintro r s1 _ _
+  dsimp only
+  refine Loc.ite _ (fun _ => ?_) (fun _ => afterChild_loc _ s1)
+  refine Loc.bind_same _ ?_
+  intro pv0 _
+  refine Loc.ite _ (fun _ => ?_) (fun _ => (afterChild_loc _ _).start rfl rfl)
+  refine Loc.bind_same _ ?_
+  intro s2 hs2
+  obtain ⟨h1, h2⟩ := recordCut_counters _ _ _ _ s2 hs2
+  exact (Loc.pure s2 _ s2 (Nat.le_refl _) (Nat.le_refl _)).start h1.symm h2.symm
+
+theorem pvNode_loc [DecidableEq M] (g : Game P M) (cfg : Cfg) (frame : Bool)
+    {cpv cpv' : PvFn P M} {czw czw' : ZwFn P M} (hp : LocPv o cpv cpv') (hz : LocZw o czw czw') :
+    LocPv o (pvNode g cfg o frame cpv czw) (pvNode g cfg o.never frame cpv' czw') := by
+  intro p ply depth pv a b s
+  unfold pvNode
+  dsimp only
+  split
+  · exact Loc.pure s _ _ (leaf_counters g p _ s).1 (leaf_counters g p _ s).2
+  · split
+    · exact Loc.error s _ _
+    · refine Loc.bind ((Loc.same _ _ (ttProbe_counters g p ply depth a b _)).start rfl rfl) ?_
+      rintro probe s1 _ _
+      dsimp only
+      cases probe with
+      | inl r => exact Loc.pure s1 _ s1 (Nat.le_refl _) (Nat.le_refl _)
+      | inr te =>
+        dsimp only
+        refine Loc.bind (Loc.same _ _ (pvInitBest_counters ply pv s1)) ?_
+        rintro best s2 _ _
+        dsimp only
+        refine Loc.bind (iterate_loc (pvBody_loc g hp hz ply depth b _) cfg _ _ s2) ?_
+        rintro c s3 _ _
+        dsimp only
+        cases c with
+        | ret r => exact Loc.pure s3 _ s3 (Nat.le_refl _) (Nat.le_refl _)
+        | next acc => exact pvStore_loc _ depth b acc s3
+        | brk acc => exact pvStore_loc _ depth b acc s3
+
+theorem nullMove_loc (g : Game P M) (cfg : Cfg) {czw czw' : ZwFn P M} (hz : LocZw o czw czw')
+    (p : P) (ply : Nat) (depth a : Int) (s : Eng M) :
+    Loc o s (nullMove g cfg czw p ply depth a s) (nullMove g cfg czw' p ply depth a s) := by
+  unfold nullMove
+  refine Loc.bind_same _ ?_
+  intro ok _
+  refine Loc.ite _ (fun _ => Loc.pure s _ s (Nat.le_refl _) (Nat.le_refl _)) (fun _ => ?_)
+  refine Loc.bind_same _ ?_
+  intro sm _
+  dsimp only
+  cases g.apply p g.passMove with
+  | error e =>
+    cases e with
+    | illegal w => exact (Loc.pure _ _ _ (Nat.le_refl _) (Nat.le_refl _)).start rfl rfl
+    | panic w => exact Loc.error s _ _
+    | hang w => exact Loc.error s _ _
+  | ok child =>
+    dsimp only
+    refine Loc.bind ((hz child (ply + 1) (depth - 3) [] (-a - 1) true _).start rfl rfl) ?_
+    rintro r s1 _ _
+    dsimp only
+    exact Loc.ite _ (fun _ => Loc.pure s1 _ _ (Nat.le_refl _) (Nat.le_refl _))
+      (fun _ => Loc.pure s1 _ _ (Nat.le_refl _) (Nat.le_refl _))
+
+theorem slideReduction_counters (g : Game P M) (cfg : Cfg) (p : P) (ply : Nat) (depth : Int) (s : Eng M) :
+    Sat (slideReduction g cfg p ply depth s) (fun x => s.loads ≤ x.2.loads ∧ s.evals ≤ x.2.evals) := by
+  unfold slideReduction
+  split
+  · apply Sat.bind; intro prev _
+    apply Sat.bind; intro red _
+    split
+    · exact Sat.pure ⟨Nat.le_refl _, Nat.le_refl _⟩
+    · exact Sat.pure ⟨Nat.le_refl _, Nat.le_refl _⟩
+  · exact Sat.pure ⟨Nat.le_refl _, Nat.le_refl _⟩
+
+theorem mcBody_loc {czw czw' : ZwFn P M} (hz : LocZw o czw czw') (ply : Nat) (depth a : Int) (cut : Bool) :
+    LocBody o (mcBody czw ply depth a cut) (mcBody czw' ply depth a cut) := by
+  intro m c acc s
+  unfold mcBody
+  refine Loc.ite _ (fun _ => Loc.pure s _ s (Nat.le_refl _) (Nat.le_refl _)) (fun _ => ?_)
+  refine Loc.bind_same _ ?_
+  intro sm _
+  refine Loc.bind ((hz c (ply + 1) (depth - 1 - 2) [] (-a - 1) (!cut) _).start rfl rfl) ?_
+  rintro r s1 _ _
+  dsimp only
+  refine Loc.ite _ (fun _ => ?_) (fun _ => Loc.pure s1 _ s1 (Nat.le_refl _) (Nat.le_refl _))
+  exact Loc.ite _ (fun _ => Loc.pure s1 _ _ (Nat.le_refl _) (Nat.le_refl _))
+    (fun _ => Loc.pure s1 _ s1 (Nat.le_refl _) (Nat.le_refl _))
+
+theorem multiCut_loc [DecidableEq M] (g : Game P M) (cfg : Cfg) {czw czw' : ZwFn P M} (hz : LocZw o czw czw')
+    (p : P) (mg : MG M) (a : Int) (cut : Bool) (s : Eng M) :
+    Loc o s (multiCut g cfg o czw p mg a cut s) (multiCut g cfg o.never czw' p mg a cut s) := by
+  unfold multiCut
+  refine Loc.ite _ (fun _ => ?_) (fun _ => Loc.pure s _ s (Nat.le_refl _) (Nat.le_refl _))
+  refine Loc.bind ((iterate_loc (mcBody_loc hz mg.ply mg.depth a cut) cfg mg _ _).start rfl rfl) ?_
+  rintro c s1 _ _
+  dsimp only
+  cases c with
+  | ret r => exact Loc.pure s1 _ s1 (Nat.le_refl _) (Nat.le_refl _)
+  | next acc => exact Loc.pure s1 _ s1 (Nat.le_refl _) (Nat.le_refl _)
+  | brk acc => exact Loc.pure s1 _ s1 (Nat.le_refl _) (Nat.le_refl _)
+
+theorem zwBody_loc [DecidableEq M] {czw czw' : ZwFn P M} (hz : LocZw o czw czw')
+    (ply : Nat) (depth a : Int) (cut : Bool) :
+    LocBody o (zwBody o czw ply depth a cut) (zwBody o.never czw' ply depth a cut) := by
+  intro m c acc s
+  unfold zwBody
+  refine Loc.bind_same _ ?_
+  intro sm _
+  refine Loc.bind ((hz c (ply + 1) (depth - 1) _ (-a - 1) (!cut) _).start rfl rfl) ?_
+  rintro r s1 _ _
+  dsimp only
+  refine Loc.ite _ (fun _ => ?_) (fun _ => afterChild_loc _ s1)
+  refine Loc.bind_same _ ?_
+  intro s2 hs2
+  obtain ⟨h1, h2⟩ := recordCut_counters _ _ _ _ s2 hs2
+  refine Loc.bind_same _ ?_
+  intro pv0 _
+  exact (Loc.pure (o := o) { s2 with pv0 := pv0 } _ _ (Nat.le_refl _) (Nat.le_refl _)).start h1.symm h2.symm
+
+theorem zwNode_loc [DecidableEq M] (g : Game P M) (cfg : Cfg) (frame : Bool)
+    {czw czw' : ZwFn P M} (hz : LocZw o czw czw') :
+    LocZw o (zwNode g cfg o frame czw) (zwNode g cfg o.never frame czw') := by
+  intro p ply depth pv a cut s
+  unfold zwNode
+  dsimp only
+  split
+  · exact Loc.pure s _ _ (leaf_counters g p _ s).1 (leaf_counters g p _ s).2
+  · split
+    · exact Loc.error s _ _
+    · refine Loc.bind ((Loc.same _ _ (ttProbe_counters g p ply depth a (a + 1) _)).start rfl rfl) ?_
+      rintro probe s1 _ _
+      dsimp only
+      cases probe with
+      | inl r => exact Loc.pure s1 _ s1 (Nat.le_refl _) (Nat.le_refl _)
+      | inr te =>
+        dsimp only
+        refine Loc.bind (nullMove_loc g cfg hz p ply depth a s1) ?_
+        rintro nm s2 _ _
+        dsimp only
+        cases nm with
+        | some r => exact Loc.pure s2 _ s2 (Nat.le_refl _) (Nat.le_refl _)
+        | none =>
+          dsimp only
+          refine Loc.bind (Loc.same _ _ (slideReduction_counters g cfg p ply depth s2)) ?_
+          rintro depth' s3 _ _
+          dsimp only
+          refine Loc.bind (multiCut_loc g cfg hz p _ a cut s3) ?_
+          rintro mc s4 _ _
+          dsimp only
+          cases mc with
+          | some r => exact Loc.pure s4 _ s4 (Nat.le_refl _) (Nat.le_refl _)
+          | none =>
+            dsimp only
+            refine Loc.bind_same _ ?_
+            intro x _
+            refine Loc.bind (iterate_loc (zwBody_loc hz ply depth' a cut) cfg _ _ s4) ?_
+            rintro c s5 _ _
+            dsimp only
+            cases c with
+            | ret r => exact Loc.pure s5 _ s5 (Nat.le_refl _) (Nat.le_refl _)
+            | next acc => exact zwStore_loc _ depth' a acc s5
+            | brk acc => exact zwStore_loc _ depth' a acc s5
+
+/-- **locality of the search**: as long as the flag was clear on every load, a search under the oracle `o` is
+the search with the flag never set; the load and evaluation counters only grow -/
+theorem search_loc [DecidableEq M] (g : Game P M) (cfg : Cfg) :
+    ∀ n, LocPv o (search g cfg o n).1 (search g cfg o.never n).1 ∧
+         LocZw o (search g cfg o n).2 (search g cfg o.never n).2 := by
+  intro n
+  induction n with
+  | zero =>
+    have hze : LocZw (P := P) o (fun _ _ _ _ _ _ _ => (.error (.panic "ai.stack[ply]: index out of range") : Except Err (Res M × Eng M)))
+        (fun _ _ _ _ _ _ _ => (.error (.panic "ai.stack[ply]: index out of range") : Except Err (Res M × Eng M))) :=
+      fun _ _ _ _ _ _ s => Loc.error s _ _
+    have hpe : LocPv (P := P) o (fun _ _ _ _ _ _ _ => (.error (.panic "ai.stack[ply]: index out of range") : Except Err (Res M × Eng M)))
+        (fun _ _ _ _ _ _ _ => (.error (.panic "ai.stack[ply]: index out of range") : Except Err (Res M × Eng M))) :=
+      fun _ _ _ _ _ _ s => Loc.error s _ _
+    exact ⟨pvNode_loc g cfg false hpe hze, zwNode_loc g cfg false hze⟩
+  | succ n ih =>
+    exact ⟨pvNode_loc g cfg true ih.1 ih.2, zwNode_loc g cfg true ih.2⟩
+
 end nodes
 end Search
